@@ -8,11 +8,13 @@ import (
 	"path/filepath"
 	"strings"
 	"testing"
+	"time"
 	"unicode/utf8"
 
 	"github.com/xelaj/errs"
 	"github.com/xelaj/mtproto/internal/session"
 	"github.com/xelaj/mtproto/telegram/verifh/hx"
+	"github.com/xelaj/mtproto/telegram/verifh/scen"
 	"pgregory.net/rapid"
 	"verif/evid"
 )
@@ -300,5 +302,93 @@ func TestC12(t *testing.T) {
 				hx.Fail(t, run, c, err)
 			}
 		})
+	})
+}
+
+// ---------- resume: a client started on a store that holds a session ----------
+
+type rapidSource struct{ t *rapid.T }
+
+func (r rapidSource) Bytes(label string, n int) []byte { return hx.FixedBytes(r.t, label, n) }
+func (r rapidSource) Int(label string, n int) int      { return rapid.IntRange(0, n-1).Draw(r.t, label) }
+
+func judgeResume(sc *scen.Scenario, res *scen.Result, runErr error) (string, error) {
+	if runErr != nil {
+		return "inconclusive", fmt.Errorf("INFRA: %v", runErr)
+	}
+	if res.Died {
+		return "violation", fmt.Errorf("client process died while resuming: %s", scen.PanicSite(res.Stderr))
+	}
+	if !res.Connected {
+		return "violation", fmt.Errorf("a client started on a stored session did not connect: %s %s", res.ConnectErr, res.ConnectPanic)
+	}
+	first := true
+	for _, ev := range res.Events {
+		if ev.Server == "decoy" {
+			return "violation", fmt.Errorf("the client contacted the configured address although the store names another one (event %s on the decoy listener)", ev.Kind)
+		}
+		switch ev.Kind {
+		case "plain":
+			return "violation", fmt.Errorf("the client started a new key exchange (plain-text frame) although the store holds a session")
+		case "enc":
+			if first {
+				first = false
+				if ev.Salt != sc.Resume.Salt {
+					return "violation", fmt.Errorf("the first frame carries salt %d, the stored salt is %d", ev.Salt, sc.Resume.Salt)
+				}
+			}
+		case "violation":
+			return "violation", fmt.Errorf("server-side validation (wrong key?): %s", ev.Note)
+		}
+	}
+	if first {
+		return "violation", fmt.Errorf("no encrypted frame reached the stored address")
+	}
+	for _, c := range res.Calls {
+		if !c.OK {
+			return "violation", fmt.Errorf("a request on the resumed session did not complete: %+v", c)
+		}
+	}
+	if !bytes.Equal(res.ClientAuthKey, sc.Resume.AuthKey) {
+		return "violation", fmt.Errorf("the client does not hold the stored auth key")
+	}
+	return "ok", nil
+}
+
+func TestC12Resume(t *testing.T) {
+	if hx.ReplayPath() != "" {
+		return
+	}
+	rapid.Check(t, func(t *rapid.T) {
+		s := rapidSource{t}
+		sc := scen.NewResumed(s)
+		sc.Resume.Salt = rapid.OneOf(rapid.SampledFrom([]int64{0, 1, -1, 1<<63 - 1, -1 << 63}), rapid.Int64()).Draw(t, "salt")
+		switch rapid.IntRange(0, 5).Draw(t, "keyclass") {
+		case 0:
+			sc.Resume.AuthKey[0], sc.Resume.AuthKey[1] = 0, 0
+		case 1:
+			for i := range sc.Resume.AuthKey {
+				sc.Resume.AuthKey[i] = 0xff
+			}
+		}
+		sc.RPC.Decoy = true
+		callers := scen.Callers(s, rapid.IntRange(1, 3).Draw(t, "n"), 1, 10)
+		sc.RPC.Steps = []scen.Step{{Op: "probe"}, {Op: "call", Calls: callers}}
+		sc.RPC.Steps, _ = scen.AnswerRounds(s, sc.RPC.Steps, callers, 0)
+		sc.RPC.Steps = append(sc.RPC.Steps, scen.Step{Op: "await-calls"})
+		res, runErr := scen.RunChild(sc, 120*time.Second)
+		verdict, err := judgeResume(sc, res, runErr)
+		cls := []string{"resume", "resume-verdict:" + verdict}
+		if sc.Resume.Salt < 0 {
+			cls = append(cls, "resume:negative-salt")
+		}
+		run.Case(verdict != "inconclusive", evid.Hash(sc.Resume.AuthKey, sc.Resume.Salt), cls...)
+		if err != nil {
+			if strings.HasPrefix(err.Error(), "INFRA:") {
+				t.Skipf("%v", err)
+			}
+			p := run.Violation(map[string]any{"Resume": sc}, err.Error())
+			t.Fatalf("violation (replay %s): %v", p, err)
+		}
 	})
 }
